@@ -315,12 +315,31 @@ Definition model_lines (g : option gir) (ops : list op) : list string :=
 
 (* ---------- compile-time tables (K3): what the model says rustc will find ---------- *)
 
+Definition b2s (b : bool) : string := if b then "1" else "0".
+Definition stmt_code (s : stmt) : string :=
+  match s with
+  | SAroundBefore cb aw ev => "AB(" +++ cb +++ "," +++ b2s aw +++ "," +++ ev +++ ")"
+  | SCond neg g0 wpl aw gl el => "C(" +++ b2s neg +++ "," +++ g0 +++ "," +++ b2s wpl +++ "," +++ b2s aw +++ "," +++ gl +++ "," +++ el +++ ")"
+  | SBefore cb wpl aw => "B(" +++ cb +++ "," +++ b2s wpl +++ "," +++ b2s aw +++ ")"
+  | SConstruct tgt mv inits =>
+      "N(" +++ b2s mv +++ "," +++ join "," (map (fun fi => fst fi +++ "=" +++ match snd fi with SlotNone => "N" | SlotDefault => "D" end) inits) +++ ")"
+  | SAfter cb wpl aw => "A(" +++ cb +++ "," +++ b2s wpl +++ "," +++ b2s aw +++ ")"
+  | SAroundAfter cb aw ev => "AA(" +++ cb +++ "," +++ b2s aw +++ "," +++ ev +++ ")"
+  | SRetOk => "OK"
+  end.
+
 Definition k3_table (g : gir) : list string :=
   flat_map (fun gi =>
       (match gi_new gi with Some _ => ["new|" +++ gi_state gi] | None => [] end)
       ++ map (fun gm => "m|" +++ gi_state gi +++ "|" +++ gm_name gm +++ "|" +++ gm_target gm +++ "|"
                         +++ (match gm_payload gm with Some _ => "p" | None => "-" end) +++ "|"
-                        +++ (if gm_async gm then "a" else "-")) (gi_methods gi))
+                        +++ (if gm_async gm then "a" else "-")) (gi_methods gi)
+      ++ map (fun gm => "b|" +++ gi_state gi +++ "|" +++ gm_name gm +++ "|" +++ join ";" (map stmt_code (gm_body gm))) (gi_methods gi)
+      ++ (match gi_new gi with
+          | Some inits => ["nb|" +++ gi_state gi +++ "|" +++
+                           join "," (map (fun fi => fst fi +++ "=" +++ match snd fi with SlotNone => "N" | SlotDefault => "D" end) inits)]
+          | None => []
+          end))
     (gr_impls g)
   ++ map (fun t => "acc|" +++ fst (fst t) +++ "|" +++ snd (fst t)) (gr_state_accs g)
   ++ map (fun p => "sub|" +++ fst p +++ "|" +++ snd p) (gr_substate g)
